@@ -287,6 +287,8 @@ def run_bounds(rng, obs):
     lo, hi = [], []
     for j in range(n):
         a = round(rng.uniform(-5, 3), 1); b = a + rng.choice([0.5, 2.0, 10.0])
+        if rng.random() < 0.25:          # bounds that are exactly zero / whole numbers given as python ints
+            a, b = rng.choice([(0.0, b - a), (a - b, 0.0), (0, 3), (-2, 0), (0.0, 0.5), (-0.0, 4.0)])
         lo.append(a); hi.append(b)
     shape = rng.choice(['finite', 'finite', 'onesided', 'degenerate', 'none'])
     deg = None
@@ -294,14 +296,16 @@ def run_bounds(rng, obs):
         j = rng.randrange(n)
         if rng.random() < 0.5: lo[j] = -math.inf
         else: hi[j] = math.inf
-    elif shape == 'none':
-        j = rng.randrange(n); lo[j] = None
+    elif shape == 'none':            # an open side written as None, on either side, possibly on several coordinates
+        for j in rng.sample(range(n), rng.randint(1, min(2, n))):
+            if rng.random() < 0.5: lo[j] = None
+            else: hi[j] = None
     elif shape == 'degenerate':
         deg = rng.randrange(n); hi[deg] = lo[deg]
     symbolic = rng.choice([True, True, False])
-    x = [rng.uniform(-8, 14) if rng.random() < 0.7 else (lo[j] if lo[j] not in (None, -math.inf) else 0.0) for j in range(n)]
+    x = [rng.uniform(-8, 14) if rng.random() < 0.7 else (float(lo[j]) if lo[j] not in (None, -math.inf) else 0.0) for j in range(n)]
     obs.desc = {'lo': lo, 'hi': hi, 'symbolic': symbolic, 'x': x, 'shape': shape}
-    L = [(-math.inf if v is None else v) for v in lo]; H = list(hi)
+    L = [(-math.inf if v is None else v) for v in lo]; H = [(math.inf if v is None else v) for v in hi]
     usable = [j for j in range(n) if (math.isfinite(L[j]) or math.isfinite(H[j])) and L[j] != H[j]]
     try:
         c = boundsconstrain(list(lo), list(hi), symbolic=symbolic)
